@@ -1,6 +1,7 @@
 #!/bin/sh
 # MANIFEST.setup_cmd: build the framework offline from files on disk only.
-cd /verif || exit 2
+cd "$(dirname "$0")" || exit 2
+VERIF_ROOT="$(pwd)"; export VERIF_ROOT
 . ./env.sh
 mkdir -p bin build evidence replays
 "$VERIF_GO" build -o bin/vsim ./cmd/vsim || exit 2
